@@ -2,6 +2,7 @@ import Nstd.Xml.Model
 import Nstd.Xml.LemmasEscape
 import Nstd.Xml.LemmasSafe
 import Nstd.Xml.LemmasRt3
+import Nstd.Xml.LemmasPos
 /-
   Property C16 — XML parsing is total and safe; serialising then parsing is identity.
   Theorems about the model `Nstd.Xml.parse` / `Elem.toStr` of src/Document/Xml.cpp.
@@ -22,6 +23,20 @@ theorem parse_no_oob (bs : Bytes) : parse bs ≠ .oob := by
   have h := parseDoc_safe (cutNul bs)
   unfold parse
   intro e; rw [e] at h; exact h
+
+/-- Error positions: whenever parsing fails, the reported (line, column) is exactly the line and
+    column (1-based; `\r\n`, `\r`, `\n` each end a line; column = offset in the line + 1) of a position
+    `0 … length` of the text in front of the terminator (`Inside`, Spec.lean) — for every byte string.
+    In particular 1 ≤ line ≤ number of lines and 1 ≤ column ≤ length of that line + 1. -/
+theorem error_pos_inside (bs : Bytes) (l c : Nat) (m : Msg) (h : parse bs = .err l c m) :
+    Inside (cutNul bs) l c := by
+  have hg := parseDoc_good (cutNul bs)
+  unfold parse at h
+  rw [h] at hg
+  exact hg
+
+/-- non-vacuity: `<a>\n<` fails at line 2, column 2 (end of text) -/
+example : parse [60, 97, 62, 10, 60] = .err 2 2 .eof := by rfl
 
 /-- Unescaping undoes escaping, for every byte string, for text and for attribute values
     (`'"&<>` as entities, line breaks in attribute values as `&#10;` / `&#13;`). -/
